@@ -1437,7 +1437,7 @@ func (x *Exec) useTerm(st *State, cl *Clause, e ast.Expr, c *evalCtx) *Term {
 					break
 				}
 				lo, hi := c.term(n.Args[1]), c.term(n.Args[2])
-				bv := Sym(fresh(v.Name), SInt)
+				bv := Sym(c.boundName(v.Name), SInt)
 				cc := c.with(map[string]Value{v.Name: Sc{bv}})
 				cc.facts = false
 				body := x.useTerm(st, cl, n.Args[3], cc)
